@@ -131,7 +131,7 @@ def observe(arg):
     rep = {"version": rep["version"], "root": rep["root"], "repo": list(rep["repo"]), "files": [dict(f) for f in rep["files"]], "sums": rep["sums"]}
     r = build_report(rep, k)
     I = Intern()
-    ev = {"rep": rep, "orig": project_report(r, I), "doc": EMPTY, "back": EMPTY, "pretty_valid": False, "compact_valid": False, "same_parse": False, "rewrite_same": False}
+    ev = {"rep": rep, "orig": project_report(r, I), "doc": EMPTY, "back": EMPTY, "pretty_valid": False, "compact_valid": False, "same_parse": False, "rewrite_same": False, "guard": ["none", "none"]}
     pretty = ReportWriter(r).to_json()
     compact = ReportWriter(r, pretty_print=False).to_json()
     try:
@@ -150,6 +150,7 @@ def observe(arg):
     ev["doc"] = project_doc(dp, I)
     if r.repository is not None and r.repository.branch is None and ev["doc"]["repo"]:
         pass
+    ev["guard"] = [I(ReportReader.get_report_version(pretty)), I(ReportReader.get_report_version(compact))]
     back = ReportReader.from_json(pretty)
     ev["back"] = project_report(back, I)
     back.timestamp = r.timestamp
@@ -216,7 +217,7 @@ def run(tier: str) -> int:
         else:
             rp = parse_state(j[0])["rep"]
             events.append({"rep": {"version": rp["version"], "root": rp["root"], "repo": list(rp["repo"]), "files": [dict(f) for f in rp["files"]], "sums": rp["sums"]}, "orig": EMPTY, "doc": EMPTY, "back": EMPTY,
-                           "pretty_valid": True, "compact_valid": True, "same_parse": True, "rewrite_same": True, "exc": r[1] if r[0] == "exc" else "timeout"})
+                           "pretty_valid": True, "compact_valid": True, "same_parse": True, "rewrite_same": True, "guard": ["none", "none"], "exc": r[1] if r[0] == "exc" else "timeout"})
     log(f"[C08] G {m.distinct} report values x {b['inst']} instantiation(s) written, parsed and read back, {t.s()}s")
     rejected = accept(wd, events)
     for k, clause in sorted(rejected.items()):
@@ -250,7 +251,7 @@ def replay(path: str) -> int:
     chunk = "/\\ rep = " + to_tla({"version": rep["version"], "root": rep["root"], "repo": tuple(rep["repo"]), "files": tuple(rep["files"]), "sums": rep.get("sums", "distinct")})
     r = guarded(observe, (chunk, case["instantiation"]), 60)
     print("report value:", rep)
-    ev = dict(r[1], exc="") if r[0] == "ok" else {"rep": rep, "orig": EMPTY, "doc": EMPTY, "back": EMPTY, "pretty_valid": True, "compact_valid": True, "same_parse": True, "rewrite_same": True, "exc": str(r[1])}
+    ev = dict(r[1], exc="") if r[0] == "ok" else {"rep": rep, "orig": EMPTY, "doc": EMPTY, "back": EMPTY, "pretty_valid": True, "compact_valid": True, "same_parse": True, "rewrite_same": True, "guard": ["none", "none"], "exc": str(r[1])}
     print({x: ev[x] for x in ("pretty_valid", "compact_valid", "same_parse", "rewrite_same", "exc")})
     wd = workdir(PROP, "replay")
     rej = accept(wd, [ev], name="replay")
